@@ -688,7 +688,8 @@ def run(tier, seed):
              'when the op sequence is non-empty and the body is resumed at least once, distinct by all four components; nest cases '
              'when two different profiler instances are involved; every descriptor term and registration case is counted '
              '(each walks >= 7 access paths / argument lists)',
-        exhaustive='op sequences of length <= %d over {next, send 2, throw ValueError, throw GeneratorExit, close} for %d random tables '
+        exhaustive=True,
+        exhaustive_scope='op sequences of length <= %d over {next, send 2, throw ValueError, throw GeneratorExit, close} for %d random tables '
                    '(<= 3 states) per kind; all nestings of depth <= %d over {decorate, with} x 4 profiler instances; '
                    '%s registration configurations' % (exh[0], 4 if tier == 'quick' else 24, exh[1],
                                                        'all 576' if tier != 'quick' else '288 sampled of 576'),
